@@ -26,6 +26,7 @@ func init() {
 	extraOps["allocs"] = opAllocs
 	extraOps["legacy"] = opLegacy
 	extraOps["env"] = opEnv
+	extraOps["parseuint"] = opParseUint
 	extraOps["conc"] = opConc
 	extraOps["keep"] = opKeep
 	extraOps["recheck"] = opRecheck
@@ -614,4 +615,15 @@ func opHammer(a []*sx) string {
 	wg.Wait()
 	fmt.Fprintf(&sb, " (badsize %d) (badbytes %d) (errors %d) (panics %d) (calls %d)", badSize, badBytes, errs, panics, calls)
 	return sb.String()
+}
+
+// parseuint HEX: what the Go standard library's strconv.ParseUint(s, 0, 64) says about s -- the
+// function internal/opts.parseOrDefault relies on and coq/EnvParse.v transcribes.
+func opParseUint(a []*sx) string {
+	in, _ := hex.DecodeString(strings.TrimPrefix(a[0].atom, "-"))
+	v, err := strconv.ParseUint(string(in), 0, 64)
+	if err != nil {
+		return "(err)"
+	}
+	return "(ok " + strconv.FormatUint(v, 10) + ")"
 }
